@@ -97,6 +97,12 @@ def generate(batch: str, r: Rng, idx: int, tier: str) -> Dict[str, Any]:
                 op[1] = 0xA000 | (rb.below(256) << 4) | nib
             else:
                 op[1] = 0x2000 | nib
+        rl = r.child("low-mirror")
+        if rl.chance(1, 4):
+            # the low window is documented as 0x2000-0x2FFF too: a share of the runs uses its mirror addresses
+            for op in ops:
+                if (op[1] & 0xF000) == 0x2000 and rl.chance(1, 2):
+                    op[1] |= rl.range(1, 255) << 4
         return {"kind": "bus", "exec": "py-lcd", "ops": ops}
     if batch == "redraw":
         # a screen is drawn and shown; the controllers are reset (or not); the same layout is drawn again with other
@@ -197,7 +203,17 @@ def _run_py_bus(scn: Dict[str, Any]) -> Dict[str, Any]:
         else:
             got = emu.memory.read_byte(op[1])
             want = ref.read(base)
-        trace.append([got, want, _py_regs(emu.lcd), _py_regs(ref)])
+        rec = [got, want, _py_regs(emu.lcd), _py_regs(ref)]
+        if (op[1] & 0xF000) == 0x2000 and (op[1] & 0xFF0) and (rec[2] != rec[3] or (op[0] == 1 and want is not None and got != (want & 0xFF))):
+            # a mirror address of the low window that the bus did not take to the controller: the mismatch is reported;
+            # the machine's controller then gets the access directly so that the rest of the run stays comparable
+            pre = list(rec)
+            if op[0] == 0:
+                emu.lcd.write(base, op[2])
+            else:
+                emu.lcd.read(base)
+            rec = pre + [_py_regs(emu.lcd) == _py_regs(ref)]
+        trace.append(rec)
     return {"trace": trace}
 
 
@@ -205,19 +221,27 @@ def _check_bus(scn: Dict[str, Any], hist: Dict[str, Any]) -> List[dict]:
     viols: List[dict] = []
     hist["_probes"] = probes = {}
     for i, (op, rec) in enumerate(zip(scn["ops"], hist["trace"])):
-        got, want, bus_regs, ref_regs = rec
+        got, want, bus_regs, ref_regs = rec[:4]
+        low_mirror = (op[1] & 0xF000) == 0x2000 and bool(op[1] & 0xFF0)
+        if low_mirror:
+            probes["low_window_mirror_address"] = probes.get("low_window_mirror_address", 0) + 1
         if op[1] & 0xFF0:
             probes["window_mirror_address"] = probes.get("window_mirror_address", 0) + 1
         if bus_regs != ref_regs:
-            viols.append({"cls": "decode", "executor": "py-lcd", "where": {"level": "bus", "window": f"{op[1] & 0xF000:#06x}"},
+            viols.append({"cls": "decode", "executor": "py-lcd", "where": {"level": "bus", "window": f"{op[1] & 0xF000:#06x}",
+                                                                              "low_mirror": low_mirror},
                           "msg": f"op {i} {['write', 'read'][op[0]]} at {op[1]:#06x} through the machine bus left the controller in "
                                  f"{bus_regs}, the same access on the controller gives {ref_regs}", "at": i})
-            break
+            if not (low_mirror and len(rec) > 4 and rec[4]):
+                break
+            continue
         if op[0] == 1 and want is not None and got != (want & 0xFF):
-            viols.append({"cls": "read_value", "executor": "py-lcd", "where": {"level": "bus"},
+            viols.append({"cls": "read_value", "executor": "py-lcd", "where": {"level": "bus", "window": f"{op[1] & 0xF000:#06x}",
+                                                                                  "low_mirror": low_mirror},
                           "msg": f"op {i} read at {op[1]:#06x} through the machine bus returned {got}, the controller returns {want}",
                           "at": i})
-            break
+            if not (low_mirror and len(rec) > 4 and rec[4]):
+                break
     return viols
 
 
